@@ -127,7 +127,7 @@ def run(chk, model_ok=True):
     quick = chk.tier == "quick"
     env = e2e.env()
     peers = sessions.default_peers()
-    n_hist = 60 if quick else 1500
+    n_hist = 150 if quick else 3000
     lines, expects, owners = [], [], []
     n_send = n_recv = n_fail = 0
     hist = {}
